@@ -514,6 +514,10 @@ func (w *streamingResponseWriter) WriteHeader(status int) {
 		Body:       w.bodyReader,
 		Trailer:    w.trailer,
 	}
+	// The handler keeps using Header() after this point (declared trailers are
+	// set there once the body is done), concurrently with the goroutine that
+	// serialises resp, so the response gets a header map of its own.
+	resp.Header = header.Clone()
 	select {
 	case w.respChan <- resp:
 	case <-w.r.Context().Done():
